@@ -55,3 +55,7 @@ func RunChildren(testName string, n int) (ran int, failed []string) {
 	}
 	return
 }
+
+// EnvProp returns the property a test that serves several properties reports for in this run (VERIF_UNIT_PROP, set by
+// the unit's configuration), or "".
+func EnvProp() string { return os.Getenv("VERIF_UNIT_PROP") }
